@@ -14,7 +14,8 @@ from ural.normalize_url import normalize_url
 from ural.fingerprint_url import fingerprint_url
 from ural.has_special_host import is_special_host
 
-PORT_SPLITTER = re.compile(r":(?![\d:]+])")
+# NOTE: colons found within a bracketed ip literal do not introduce a port
+PORT_SPLITTER = re.compile(r":(?![^\[\]]*\])")
 
 
 def lru_stems_from_parsed_url(parsed_url, suffix_aware=True):
@@ -61,7 +62,8 @@ def lru_stems_from_parsed_url(parsed_url, suffix_aware=True):
                     lru.append("h:" + element)
 
     if should_process_normally:
-        if is_special_host(netloc[0]):
+        # NOTE: a bracketed ip literal is a single stem
+        if netloc[0].startswith("[") or is_special_host(netloc[0]):
             lru.append("h:" + netloc[0])
         else:
             for element in reversed(netloc[0].split(".")):
